@@ -28,26 +28,38 @@ EXCLUDE = ["rtrlib/rtr/packets.c", "rtrlib/rtr/rtr.c"]
 
 
 def split_replies(ops, out):
-    """group output lines by op: `run *` replies end with the line 'end', `dump` has 2 lines, others 1"""
+    """group output lines by op: `run *` replies end with the line 'end', `dump` has 2 lines, others 1.
+    Marker lines of the harness (`X ...`: callback log mismatch, printed with the next flush - before a show line, before either line of
+    a dump) belong to no reply of their own: they go with the preceding group, so that the replies stay aligned with the ops."""
     res = []
-    i = 0
+    pos = [0]
+
+    def take(k):
+        got = []
+        while len(got) < k and pos[0] < len(out):
+            l = out[pos[0]]
+            pos[0] += 1
+            if l.startswith("X ") and res:
+                res[-1].append(l)
+            else:
+                got.append(l)
+        return got
     for op in ops:
+        i = pos[0]
         if op.startswith("run "):
             j = i
             while j < len(out) and out[j] != "end":
                 j += 1
             if j < len(out) and out[i] != "bad-op":
                 res.append(out[i:j + 1])
-                i = j + 1
+                pos[0] = j + 1
             else:
                 res.append(out[i:i + 1])
-                i += 1
+                pos[0] = i + 1
         elif op == "dump":
-            res.append(out[i:i + 2])
-            i += 2
+            res.append(take(2))
         else:
-            res.append(out[i:i + 1])
-            i += 1
+            res.append(take(1))
     return res
 
 
@@ -266,6 +278,391 @@ def fsm_outcome_key(rep, c):
             rep[sidx[1]][0] if len(sidx) > 1 else None, tuple(rep[didx[0]]) if didx else None)
 
 
+# ------------------------------------------------------------------------------------------
+# Classes of cases beyond the random conversations (each reaches a region that needs something rare): which of them a
+# property runs, how many cases per tier.  Every class has a coverage gate: if a run did not exercise what the class exists
+# for, the check fails (a generator that silently stops reaching its region would otherwise look like a pass).
+# ------------------------------------------------------------------------------------------
+EXTRA_CLASSES = {
+    "C03": ["keyheavy", "allocfail", "restart"],
+    "C04": ["keyheavy", "restart"],
+    "C05": ["restart", "livestop"],
+    "C07": ["restart", "livestop", "foreign"],
+    "C13": ["restart"],
+    "C14": ["sendtime", "restart"],
+}
+EXTRA_N = {   # class -> (quick, thorough)
+    "keyheavy": (6, 120), "keyheavy_big": (1, 6), "allocfail": (4, 80), "restart": (60, 2000), "livestop_bases": (6, 150),
+    "livestop_max": (260, 8000), "sendall": (1500, 40000), "sendtime_sync": (250, 6000), "sendtime_fsm": (60, 2000), "foreign": (3, 12),
+}
+
+
+def run_impl_cases(exe, cases, B=40):
+    """implementation only - for schedules the model does not describe (a stop request in the middle of a transport call, a refused
+    allocation, time passing inside write calls): the property oracles decide.  returns [(case, replies | None, crash | None)]"""
+    from concurrent.futures import ThreadPoolExecutor
+
+    def one(batch):
+        ops = [o for c in batch for o in c.ops]
+        io, rc, err = vlib.run_lines(exe, ops, timeout=300)
+        out = []
+        if rc != 0:
+            for c in batch:
+                o1, rc1, err1 = vlib.run_lines(exe, c.ops, timeout=120)
+                out.append((c, None, (rc1, err1, o1)) if rc1 != 0 else (c, split_replies(c.ops, o1), None))
+            return out
+        irep = split_replies(ops, io)
+        pos = 0
+        for c in batch:
+            out.append((c, irep[pos:pos + len(c.ops)], None))
+            pos += len(c.ops)
+        return out
+    batches = [cases[b0:b0 + B] for b0 in range(0, len(cases), B)]
+    with ThreadPoolExecutor(max_workers=vlib.jobs()) as ex:
+        parts = list(ex.map(one, batches))
+    return [x for part in parts for x in part]
+
+
+def sync_multi_oracle(c, rep):
+    """every `run sync` of a case (several exchanges against one socket), each with the show/dump pair before and after it"""
+    fails = []
+    last_tr = None
+    try:
+        for i, o in enumerate(c.ops):
+            if not o.startswith("run sync"):
+                continue
+            if i < 2 or i + 2 >= len(c.ops) or c.ops[i - 2] != "show" or c.ops[i - 1] != "dump" or c.ops[i + 1] != "show" or c.ops[i + 2] != "dump":
+                continue
+            tr = rtroracle.Trace(rep[i])
+            last_tr = tr
+            fails += rtroracle.check_sync_case(rep[i - 2][0], rep[i - 1], tr, rep[i + 1][0], rep[i + 2])
+            b = rtroracle.parse_show(rep[i - 2][0])
+            fails += rtroracle.check_report_codes(rep[i - 1], tr, bool(b["req"]) and b["lu"] != 0 or bool(b["reset"]))
+            fails += rtroracle.check_write_ops(rep[i])
+    except Exception as ex:
+        return [("ORACLE", "oracle exception %r" % (ex,))], None
+    return fails, last_tr
+
+
+def fsm_multi_oracle(c, rep):
+    """every run of the state machine in a case (stop/start cycles of one socket): the trace oracles on each run together with the
+    rtr_stop that ends it (a later run starts from what the show before it says: version kept, first query a Reset Query), and
+    after every stop: none of the socket's records remain, the others are untouched"""
+    fails = []
+    last_tr = None
+    try:
+        runs = [i for i, o in enumerate(c.ops) if o == "run fsm"]
+        for n, i in enumerate(runs):
+            nxt = runs[n + 1] if n + 1 < len(runs) else len(c.ops)
+            shows = [j for j in range(i) if c.ops[j] == "show"]
+            if not shows or rep[i] == ["bad-op"]:
+                continue
+            stop_j = next((j for j in range(i + 1, nxt) if c.ops[j] == "run stop"), None)
+            lines = list(rep[i]) + (list(rep[stop_j]) if stop_j is not None else [])
+            tr = rtroracle.Trace(lines)
+            last_tr = tr
+            for f in rtroracle.check_fsm_trace(tr, rep[shows[-1]][0]):
+                fails.append((f[0], ("run %d of the socket: " % (n + 1) if n else "") + f[1]))
+            fails += rtroracle.check_write_ops(lines)
+            if stop_j is not None:
+                d0 = [j for j in range(i + 1, stop_j) if c.ops[j] == "dump"]
+                d1 = [j for j in range(stop_j + 1, nxt) if c.ops[j] == "dump"]
+                if d0 and d1 and len(rep[d0[-1]]) == 2 and len(rep[d1[0]]) == 2:
+                    pf0, ks0 = rtroracle.parse_dump(*rep[d0[-1]])
+                    pf1, ks1 = rtroracle.parse_dump(*rep[d1[0]])
+                    if rtroracle.own(pf1) or rtroracle.own(ks1):
+                        fails.append(("C07", "records of the socket remain after rtr_stop"))
+                    if rtroracle.others(pf0) != rtroracle.others(pf1) or rtroracle.others(ks0) != rtroracle.others(ks1):
+                        fails.append(("C07", "rtr_stop altered records of other sockets (%d + %d before, %d + %d after)" % (
+                            len(rtroracle.others(pf0)), len(rtroracle.others(ks0)), len(rtroracle.others(pf1)), len(rtroracle.others(ks1)))))
+    except Exception as ex:
+        return [("ORACLE", "oracle exception %r" % (ex,))], None
+    return fails, last_tr
+
+
+def transport_calls(lines):
+    return sum(1 for l in lines if l[:2] in ("O ", "W ", "R "))
+
+
+def eod_completed_after_stop(lines):
+    """live stop: did the stop request arrive during a receive call after which the thread still completed an End of Data PDU?"""
+    k = next((i for i, l in enumerate(lines) if l.startswith("X stop-request")), None)
+    if k is None or "(recv)" not in lines[k]:
+        return False
+    before = sum(1 for l in lines[:k] if l.startswith("R ") and l.split()[4].isdigit())
+    # the state callback of rtr_stop runs on the other thread while the receive call is in progress: not an event of this exchange
+    j = next((i for i in range(k, len(lines)) if lines[i].startswith("S SHUTDOWN")), None)
+    tr = rtroracle.Trace([l for i, l in enumerate(lines) if i != j])
+    seen = 0
+    for e in tr.events:
+        if e[0] == "rx":
+            seen += 1
+        elif e[0] == "pdu" and seen > before and e[2] and len(e[1]) >= 2 and e[1][1] == P.EOD:
+            return True
+    return False
+
+
+def extra_classes(pid, tier, exe, drv, run_model, fsm_done):
+    """runs the classes of EXTRA_CLASSES[pid]; `fsm_done` = [(case, impl replies)] of conversations that have already run (bases for
+    the live-stop sweep).  returns dict(fails, divergences, crashes, stats, gates) - gates: [(class, text)] that were not met"""
+    T = 0 if tier == "quick" else 1
+    classes = EXTRA_CLASSES.get(pid, [])
+    fails, divergences, crashes, gates = [], [], [], []
+    stats = {}
+    from concurrent.futures import ThreadPoolExecutor
+
+    def both(cases, oracle):
+        for c, irep, mrep, crash in run_cases(exe, drv, cases, B=20):
+            if crash:
+                crashes.append((c, crash))
+                continue
+            flat_i = [l for x in irep for l in x]
+            flat_m = [l for x in mrep for l in x]
+            d = vlib.first_divergence(flat_i, flat_m)
+            if d is not None:
+                divergences.append((c, d, flat_i[d] if d < len(flat_i) else "<eof>", flat_m[d] if d < len(flat_m) else "<eof>"))
+            fs, _tr = oracle(c, irep)
+            for f in fs + cblog_fails(flat_i):
+                fails.append((c, f))
+            yield c, irep
+
+    def impl(cases, oracle):
+        for c, irep, crash in run_impl_cases(exe, cases):
+            if crash:
+                crashes.append((c, crash))
+                continue
+            fs, _tr = oracle(c, irep)
+            for f in fs + cblog_fails([l for x in irep for l in x]):
+                fails.append((c, f))
+            yield c, irep
+
+    # minimised histories of these classes that once failed: corpus/rtr/*.mops (implementation and model), *.xops (implementation
+    # only); a line `allocfail *` stands for one copy of the case per allocation request (1..60)
+    def auto_oracle(c, rep):
+        return (fsm_multi_oracle if "run fsm" in c.ops else sync_multi_oracle)(c, rep)
+    cdir = os.path.join(vlib.VERIF, "corpus", "rtr")
+    xcorp, mcorp = [], []
+    for f in sorted(os.listdir(cdir)) if os.path.isdir(cdir) else []:
+        if not f.endswith((".xops", ".mops")):
+            continue
+        lines = [l.strip() for l in open(os.path.join(cdir, f)) if l.strip() and not l.startswith("#")]
+        for k in (range(1, 61) if "allocfail *" in lines else [None]):
+            c = rtrgen.FsmCase() if "run fsm" in lines else rtrgen.SyncCase()
+            c.ops = [("allocfail %d" % k) if l == "allocfail *" else l for l in lines]
+            c.meta = {"mut": "corpus:" + f + ("" if k is None else " k=%d" % k), "good_tail": 0, "used": ["corpus"]}
+            (xcorp if f.endswith(".xops") else mcorp).append(c)
+    if classes:
+        stats["corpus"] = {"cases": len(xcorp) + len(mcorp)}
+        for _c, _irep in impl(xcorp, auto_oracle):
+            pass
+        for _c, _irep in both(mcorp, auto_oracle):
+            pass
+
+    if "keyheavy" in classes:
+        r = vlib.rng(pid + "/keyheavy")
+        bit, _divs = rtrgen.hashlin_params()
+        cases = [rtrgen.gen_keyheavy_case(r, b=bit + 1, recipe="shrink_grow")]
+        cases += [rtrgen.gen_keyheavy_case(r) for _ in range(EXTRA_N["keyheavy"][T] - 1)]
+        # a table of 2^(bit+5) buckets (more than 1000 keys) costs the model seconds: quick tier only where memory safety is the property
+        n_big = EXTRA_N["keyheavy_big"][T] if (pid == "C04" or tier != "quick") else 0
+        cases += [rtrgen.gen_keyheavy_case(r, b=bit + 5, recipe="shrink_grow") for _ in range(n_big)]
+        cases += [rtrgen.gen_keyheavy_case(r, b=bit + 3, recipe="shrink_grow")]
+        st = {"cases": len(cases), "exchanges": 0, "max_keys": 0, "shrink_then_grow": 0, "sizes": {}}
+        for c, irep in both(cases, sync_multi_oracle):
+            st["exchanges"] += sum(1 for o in c.ops if o == "run sync")
+            st["max_keys"] = max([st["max_keys"]] + c.meta["counts"])
+            st["shrink_then_grow"] += c.meta["stg"] is not None
+            st["sizes"][str(c.meta["b"])] = st["sizes"].get(str(c.meta["b"]), 0) + 1
+        stats["keyheavy"] = st
+        if not st["shrink_then_grow"] or st["max_keys"] <= (1 << (bit + 1)) or (n_big and st["max_keys"] <= (1 << (bit + 4))):
+            gates.append(("keyheavy", "no router-key history that grows a table past its initial size, withdraws into an unfinished shrink and "
+                          "grows again ran to the end (shrink-then-grow cases %d, largest key set %d, initial table size 2^%d)" % (
+                              st["shrink_then_grow"], st["max_keys"], bit)))
+
+    if "allocfail" in classes:
+        r = vlib.rng(pid + "/allocfail")
+        bases = [rtrgen.gen_reload_case(r) for _ in range(EXTRA_N["allocfail"][T])]
+        while not any(b.meta["mut"] == "reload" and b.meta["others_v6"] >= 2 for b in bases):
+            bases.append(rtrgen.gen_reload_case(r))
+        counted = {}
+        probes = [rtrgen.allocfail_variant(b, 10 ** 12) for b in bases]       # no refusal: counts the requests of the exchange
+        for c, irep in impl(probes, sync_multi_oracle):
+            a = [l for x in irep for l in x if l.startswith("A ")]
+            counted[id(c)] = int(a[0].split()[1]) if a else 0
+        variants = []
+        n_req = []
+        for b, pr in zip(bases, probes):
+            nreq = min(counted.get(id(pr), 0), 200)
+            n_req.append(nreq)
+            variants += [rtrgen.allocfail_variant(b, k) for k in range(1, nreq + 1)]
+        st = {"scenarios": len(bases), "reloads": sum(1 for b in bases if b.meta["mut"] == "reload"), "requests": n_req, "runs": len(variants),
+              "refused": 0, "ret": {}}
+        for c, irep in impl(variants, sync_multi_oracle):
+            flat = [l for x in irep for l in x]
+            st["refused"] += any(l.startswith("A ") and l.split()[2] == "1" for l in flat)
+            for l in flat:
+                if l.startswith("ret "):
+                    st["ret"][l.split()[1]] = st["ret"].get(l.split()[1], 0) + 1
+        stats["allocfail"] = st
+        if st["refused"] < 10 or not st["reloads"]:
+            gates.append(("allocfail", "fewer than 10 synchronisations ran with a refused allocation (%d), or no reload among them" % st["refused"]))
+
+    if "restart" in classes:
+        n = EXTRA_N["restart"][T]
+
+        def gen_one(i):
+            ri = vlib.rng("%s/restart/%d" % (pid, i))
+            return rtrgen.gen_fsm_restart_case(ri, run_model, second_ver=0 if i % 2 == 0 else None)
+        with ThreadPoolExecutor(max_workers=vlib.jobs()) as ex:
+            cases = list(ex.map(gen_one, range(n)))
+        st = {"cases": len(cases), "second_run_v0_answer_to_v1_socket": 0, "second_runs_with_data": 0, "first_query_reset": 0}
+        for c, irep in both(cases, fsm_multi_oracle):
+            runs = [i for i, o in enumerate(c.ops) if o == "run fsm"]
+            if len(runs) < 2 or irep[runs[1]] == ["bad-op"]:
+                continue
+            shows = [j for j in range(runs[1]) if c.ops[j] == "show"]
+            s1 = rtroracle.parse_show(irep[shows[-1]][0])
+            tr2 = rtroracle.Trace(irep[runs[1]])
+            first_pdu = next((e for e in tr2.events if e[0] == "pdu"), None)
+            if s1["ver"] == 1 and s1["hasrecv"] == 1 and first_pdu and len(first_pdu[1]) >= 2 and first_pdu[1][0] == 0 and first_pdu[1][1] != P.ERROR:
+                st["second_run_v0_answer_to_v1_socket"] += 1
+            st["second_runs_with_data"] += any(e[0] == "state" and e[1] == "ESTABLISHED" for e in tr2.events)
+            sent = [x for seg in tr2.sent_bytes() for x in P.decode_stream(seg)[0]]
+            st["first_query_reset"] += bool(sent) and sent[0]["type"] == P.RESET_QUERY
+        stats["restart"] = st
+        if not st["second_run_v0_answer_to_v1_socket"] or not st["second_runs_with_data"]:
+            gates.append(("restart", "no stop/start cycle in which a socket that had received PDUs at version 1 was restarted and answered "
+                          "with a lower version first (%d), or none whose second run synchronised (%d)" % (
+                              st["second_run_v0_answer_to_v1_socket"], st["second_runs_with_data"])))
+
+    if "livestop" in classes:
+        r = vlib.rng(pid + "/livestop")
+        bases = []
+        for ver in (1, 0):
+            b = rtrgen.simple_conversation(r, ver)
+            (bc, birep, bcrash), = run_impl_cases(exe, [b])
+            if birep is not None:
+                bases.append((b, birep))
+        for c, irep in fsm_done:
+            if len(bases) >= EXTRA_N["livestop_bases"][T] + 2:
+                break
+            if c.meta.get("mut") == "fsm" and "run fsm" in c.ops:
+                bases.append((c, irep))
+        variants = []
+        for b, irep in bases:
+            i = b.ops.index("run fsm")
+            ncalls = transport_calls(irep[i])
+            for k in range(1, ncalls + 1):
+                if len(variants) < EXTRA_N["livestop_max"][T]:
+                    variants.append(rtrgen.livestop_variant(r, b, k))
+        st = {"conversations": len(bases), "runs": len(variants), "stopped_in": {}, "call_completed_after_stop": 0, "eod_completed_after_stop": 0,
+              "restarts": 0}
+        for c, irep in impl(variants, fsm_multi_oracle):
+            i = c.ops.index("run fsm")
+            j = c.ops.index("run stop")
+            lines = list(irep[i]) + list(irep[j])
+            x = [l for l in lines if l.startswith("X stop-request")]
+            if x:
+                what = x[0].split("(")[-1].rstrip(")")
+                st["stopped_in"][what] = st["stopped_in"].get(what, 0) + 1
+                k = lines.index(x[0])
+                st["call_completed_after_stop"] += any(l[:2] in ("O ", "W ", "R ") for l in lines[k + 1:])
+                st["eod_completed_after_stop"] += eod_completed_after_stop(lines)
+            runs = [n for n, o in enumerate(c.ops) if o == "run fsm"]
+            st["restarts"] += len(runs) > 1 and irep[runs[1]] != ["bad-op"]
+        stats["livestop"] = st
+        if st["eod_completed_after_stop"] < 2 or len(st["stopped_in"]) < 3 or not st["restarts"]:
+            gates.append(("livestop", "the sweep of rtr_stop over the transport calls of a conversation did not reach: a stop during each kind of call "
+                          "(%s), at least two stops during a receive after which the thread still completed an End of Data (%d), restarts (%d)" % (
+                              st["stopped_in"], st["eod_completed_after_stop"], st["restarts"])))
+
+    if "foreign" in classes:
+        r = vlib.rng(pid + "/foreign")
+        lits = sorted(set(x + e for x in vlib.source_literals()["ints"] if 255 <= x <= 1100 for e in (0, 1)) - {255, 300})
+        sizes = ([300] + lits)[:EXTRA_N["foreign"][T]]
+        cases = [rtrgen.gen_foreign_node_case(r, n, expiry) for n in sizes for expiry in (False, True)]
+        st = {"cases": len(cases), "records_on_one_prefix": sizes, "purged_with_foreign_node": 0}
+        for c, irep in both(cases, fsm_multi_oracle):
+            i = c.ops.index("run fsm")
+            d = [j for j in range(i) if c.ops[j] == "show"]
+            flat = [l for x in irep for l in x]
+            st["purged_with_foreign_node"] += any(l.startswith(("T pfx", "D pfx")) and len(l.split()) - 2 >= c.meta["n"] for l in flat)
+        stats["foreign"] = st
+        if st["purged_with_foreign_node"] < 2 or max(sizes) < 257:
+            gates.append(("foreign", "no stop / expiry ran against a prefix that carries more than 256 records of another source"))
+
+    if "sendtime" in classes:
+        r = vlib.rng(pid + "/sendtime")
+        # (a) the loop of tr_send_all alone: implementation = model, and its return value means what rtr_send_pdu takes it for
+        lines, pdus = [], []
+        for _ in range(EXTRA_N["sendall"][T]):
+            l, pdu = rtrgen.gen_sendall_line(r)
+            lines.append(l)
+            pdus.append(pdu)
+        io, rc, err = vlib.run_lines(exe, ["sock 3600 7200 600 1"] + lines, timeout=300)
+        mo, mrc, merr = vlib.run_lines(drv, ["sock 3600 7200 600 1"] + lines)
+        st = {"sendall_calls": len(lines), "late_partial": 0, "ret": {}}
+        cl = rtrgen.SyncCase()
+        cl.meta = {"mut": "sendall"}
+        if rc != 0:
+            cl.ops = ["sock 3600 7200 600 1"] + lines
+            crashes.append((cl, (rc, err, io)))
+        else:
+            def groups(out):
+                g, cur = [], []
+                for l in out[1:]:
+                    cur.append(l)
+                    if l == "end":
+                        g.append(cur)
+                        cur = []
+                return g
+            gi, gm = groups(io), groups(mo)
+            for k, (l, pdu) in enumerate(zip(lines, pdus)):
+                ci = rtrgen.SyncCase()
+                ci.ops = ["sock 3600 7200 600 1", l]
+                ci.meta = {"mut": "sendall"}
+                out = gi[k] if k < len(gi) else []
+                for f in rtroracle.check_sendall(pdu, out):
+                    fails.append((ci, f))
+                if k >= len(gm) or out != gm[k]:
+                    d = next((x for x in range(min(len(out), len(gm[k]) if k < len(gm) else 0)) if out[x] != gm[k][x]), 0)
+                    divergences.append((ci, d, out[d] if d < len(out) else "<eof>", gm[k][d] if k < len(gm) and d < len(gm[k]) else "<eof>"))
+                # (counted on the model's reply: what the schedule is does not depend on what the implementation makes of it)
+                w = [x.split() for x in (gm[k] if k < len(gm) else []) if x.startswith("V ")]
+                st["late_partial"] += any(int(a[2]) < 0 for a in w)
+                for x in out:
+                    if x.startswith("ret "):
+                        key = "complete" if int(x.split()[1]) >= 0 else x.split()[1]
+                        st["ret"][key] = st["ret"].get(key, 0) + 1
+        # (b) whole exchanges and conversations on such a link: what reaches the transport is still a sequence of complete PDUs
+        rs = vlib.rng(pid + "/sendtime/sync")
+        sync_cases = []
+        muts = ["bad_flags", "dup", "unknown_wd", "bad_length", "unknown_type", "bad_version", "eod_session", "hostile_len", "key_bad_flags", "cr_session",
+                "unexpected_type", "error_nested_len"]
+        for k in range(EXTRA_N["sendtime_sync"][T]):
+            sync_cases.append(rtrgen.with_send_time(rs, rtrgen.gen_sync_case(rs, force_mut=muts[k % len(muts)]), at=0 if k % 2 == 0 else None))
+        st["exchanges"] = len(sync_cases)
+        st["partial_then_more"] = 0
+        for c, irep in impl(sync_cases, sync_multi_oracle):
+            flat = [l for x in irep for l in x]
+            ws = [l.split() for l in flat if l.startswith("W ")]
+            st["partial_then_more"] += any(a[3].isdigit() and int(a[3]) < int(a[1]) for a in ws)
+        fsm_cases = []
+        for c, irep in fsm_done[:EXTRA_N["sendtime_fsm"][T]]:
+            if "run fsm" in c.ops:
+                fsm_cases.append(rtrgen.with_send_time(rs, c))
+        st["conversations"] = len(fsm_cases)
+        for c, irep in impl(fsm_cases, fsm_multi_oracle):
+            flat = [l for x in irep for l in x]
+            ws = [l.split() for l in flat if l.startswith("W ")]
+            st["partial_then_more"] += any(a[3].isdigit() and int(a[3]) < int(a[1]) for a in ws)
+        stats["sendtime"] = st
+        if st["late_partial"] < 20 or st["partial_then_more"] < 20:
+            gates.append(("sendtime", "too few write schedules with a partial write after which the send deadline had passed (%d direct calls, %d "
+                          "exchanges / conversations)" % (st["late_partial"], st["partial_then_more"])))
+    return {"fails": fails, "divergences": divergences, "crashes": crashes, "stats": stats, "gates": gates}
+
+
 def run(pid, tier):
     rep = vlib.Report(pid, tier)
     Pp = PROPS[pid]
@@ -276,16 +673,16 @@ def run(pid, tier):
     proved = True
     if Pp["theorems"]:
         proved = vlib.prove(rep, Pp["modules"], Pp["theorems"], extra_targets=["rtrdriver"])
+    else:
+        ok, log = vlib.lake_build(["rtrdriver"])
+        rep.cov["checker_cmd"] = "(no theorem registered yet for this property)"
+        rep.cov["trusted_base"] = []
     import cfuncheck
     if pid in cfuncheck.LINKS and pid in cfuncheck.ENABLED:
         cfuncheck.link(rep, pid)     # translation tie: the C text of the small functions = the model, for every input
     if pid in ("C01", "C02", "C09", "C10", "C03"):
         import lockcheck
         lockcheck.gate(rep, pid)     # the sequential theorems are claimed for shared tables: one critical section per call
-    else:
-        ok, log = vlib.lake_build(["rtrdriver"])
-        rep.cov["checker_cmd"] = "(no theorem registered yet for this property)"
-        rep.cov["trusted_base"] = []
     drv = vlib.driver_path("rtrdriver")
     exe, blog = vlib.build_harness("rtr", ["rtr_harness.c"], exclude=EXCLUDE, flags=vlib.SAN_FLAGS_NOALIGN)
     if exe is None or not os.path.exists(drv):
@@ -425,8 +822,22 @@ def run(pid, tier):
             fails.append((var, ("ORACLE", "fsm rechunk comparison failed: %r" % (ex,))))
     stats["fsm_rechunk_pairs"] = len(fsm_variants)
 
+    # classes of cases beyond the random conversations (EXTRA_CLASSES): own generators, oracles and coverage gates
+    import time
+    t_x = time.time()
+    xr = extra_classes(pid, tier, exe, drv, run_model,
+                       [(c, byid[id(c)][0]) for c in fsm_cases if id(c) in byid and byid[id(c)][0] is not None and not byid[id(c)][2]])
+    fails += xr["fails"]
+    divergences += xr["divergences"]
+    crashes += xr["crashes"]
+    stats["crashes"] += len(xr["crashes"])
+    stats["classes"] = xr["stats"]
+    stats["classes_wall_s"] = round(time.time() - t_x, 1)
+    n_extra = sum(v.get(k, 0) for v in xr["stats"].values() for k in ("cases", "runs", "sendall_calls", "exchanges", "conversations")
+                  if isinstance(v.get(k, 0), int))
+
     rep.cov.update({
-        "evaluations": len(allcases), "distinct_nontrivial": len(distinct),
+        "evaluations": len(allcases) + n_extra, "distinct_nontrivial": len(distinct),
         "rule": "one response (valid, or with one mutation: duplicate, unknown withdrawal, bad flags, session mismatch, unexpected/unknown type, "
                 "error PDU, bad length, bad version, truncation, transport fault, hostile prefix lengths, host bits, ...) against a prepared socket and "
                 "pre-populated tables (own + two other sources), random segmentation into reads, optional partial/failed writes; distinct = distinct "
@@ -438,6 +849,11 @@ def run(pid, tier):
         rep.sample({"mutation": c.meta.get("mut"), "ops": [o[:160] for o in c.ops[-8:]]})
     rep.assumptions = ["thread cancellation is not exercised (the script ends by a stop request observed in recv)",
                        "the transport delivers at least one byte per successful recv/send call"]
+    if xr["stats"]:
+        rep.assumptions.append("classes beyond the model (implementation + property oracles only): rtr_stop from another thread during the k-th transport "
+                               "call (every k of a conversation; the call then completes), the k-th allocation of an exchange refused (every k), "
+                               "write calls that take time inside whole exchanges; stop/start cycles, router-key-heavy exchanges, tr_send_all with "
+                               "the clock and a crowded foreign prefix run on model and implementation")
 
     rep.cov["msan_runs"] = msan_n
     cb_failed = []
@@ -510,6 +926,9 @@ def run(pid, tier):
             break
         rep.violation("oracle%d" % len(seen), "# property %s fails on the implementation: %s\n# mutation: %s\n%s\n" % (
             p, msg, c.meta.get("mut"), "\n".join(c.ops)), signature="%s/%s" % (p, key))
+    for cls, text in xr["gates"]:
+        rep.violation("coverage_" + cls, "# coverage gate of the case class '%s' is not met: %s\n# (the class exists to reach a region the random "
+                      "conversations do not enter; a run that did not reach it is not a pass)\n" % (cls, text), no_input=True)
     for d in conv_divs[:2]:
         if d.get("kind") in ("roundtrip", "crash"):
             rep.violation("conv_" + d["kind"], "# byte-order conversion: %s\n# the C functions rtr_pdu_to_host_byte_order / rtr_pdu_to_network_byte_order on\n%s\nimpl : %s\nmodel: %s\n" % (
@@ -557,22 +976,64 @@ def replay(path):
     c.ops = ops
     c.meta = {"mut": "replay", "good_tail": 0}
     bad = 0
-    (c, irep, mrep, crash), = run_cases(exe, drv, [c])
+    if any(o.startswith("sendall ") for o in ops):
+        # direct calls of tr_send_all: implementation = model, and the meaning of the return value
+        io, rc, err = vlib.run_lines(exe, ops, timeout=120)
+        mo, mrc, merr = vlib.run_lines(drv, ops)
+        print("\n".join(io))
+        if rc != 0:
+            print("implementation aborted (rc=%s): %s" % (rc, crash_signature(err)))
+            return 1
+        if io != mo:
+            bad = 1
+            d = vlib.first_divergence(io, mo)
+            print("DIVERGENCE from the model at reply line %s\n impl : %s\n model: %s" % (d, io[d] if d is not None and d < len(io) else "<eof>",
+                                                                                       mo[d] if d is not None and d < len(mo) else "<eof>"))
+        pos = 1
+        for o in ops[1:]:
+            if o.startswith("sendall "):
+                j = pos
+                while j < len(io) and io[j] != "end":
+                    j += 1
+                for f in rtroracle.check_sendall(bytes.fromhex(o.split()[3]), io[pos:j + 1]):
+                    bad = 1
+                    print("ORACLE %s: %s" % f)
+                pos = j + 1
+            else:
+                pos += 1
+        print("replay: %s" % ("FAILS" if bad else "passes on the current tree"))
+        return bad
+    # schedules the model does not describe (a stop request during a transport call, a refused allocation, time passing inside a write
+    # call): the implementation runs alone and the property oracles decide
+    impl_only = any(o.startswith(("stopat ", "allocfail ", "run syncaf")) or (o.startswith("sendq ") and "dt:" in o) for o in ops)
+    if impl_only:
+        (c, irep, crash), = run_impl_cases(exe, [c])
+        mrep = irep
+    else:
+        (c, irep, mrep, crash), = run_cases(exe, drv, [c])
     if crash:
         print("implementation aborted (rc=%s): %s" % (crash[0], crash_signature(crash[1])))
         print("\n".join(l for l in crash[1].splitlines() if "RTR Socket" not in l)[-3000:])
         return 1
     flat_i = [l for x in irep for l in x]
     flat_m = [l for x in mrep for l in x]
-    print("\n".join(flat_i))
+    print("\n".join(l[:2000] for l in flat_i))
     d = vlib.first_divergence(flat_i, flat_m)
     if d is not None:
         bad = 1
-        print("DIVERGENCE from the model at reply line %d\n impl : %s\n model: %s" % (d, flat_i[d] if d < len(flat_i) else "<eof>", flat_m[d] if d < len(flat_m) else "<eof>"))
-    fs, tr = (fsm_oracle if any(o == "run fsm" for o in ops) else sync_oracle)(c, irep)
+        print("DIVERGENCE from the model at reply line %d\n impl : %s\n model: %s" % (d, flat_i[d][:2000] if d < len(flat_i) else "<eof>", flat_m[d][:2000] if d < len(flat_m) else "<eof>"))
+    if any(o == "run fsm" for o in ops):
+        fs = fsm_oracle(c, irep)[0] if sum(1 for o in ops if o == "run fsm") == 1 and not impl_only else []
+        fs += [f for f in fsm_multi_oracle(c, irep)[0] if f not in fs]
+    else:
+        fs = sync_oracle(c, irep)[0] if sum(1 for o in ops if o.startswith("run sync")) == 1 else []
+        fs += [f for f in sync_multi_oracle(c, irep)[0] if f not in fs]
     for f in fs + cblog_fails(flat_i):
         bad = 1
         print("ORACLE %s: %s" % f)
+    if impl_only:
+        print("replay: %s" % ("FAILS" if bad else "passes on the current tree"))
+        return bad
     mexe, mlog = vlib.build_harness("rtr_msan", ["rtr_harness.c"], exclude=EXCLUDE, flags=MSAN_FLAGS, link=["-fsanitize=memory"], cc="clang-14", variant="msan")
     if mexe:
         for c2, rc1, err1 in run_msan(mexe, [c]):
